@@ -595,7 +595,9 @@ def run_predform_case(p):
 
 def run_case(p):
     """returns None if the real engine agrees with the reference, else a description of the disagreement."""
-    O.NOLIT[0] = bool(p.get('nolit'))
+    # unless a family fixes it, every third case is generated without literals (such conditions hit the operators' result
+    # caches; a literal's id is part of the cache keys)
+    O.NOLIT[0] = bool(p['nolit']) if 'nolit' in p else (p.get('seed', 0) % 3 == 0 and p.get('kind') in (None, 'cache', 'rewrite', 'subquery', 'history'))
     try:
         return _run_case(p)
     finally:
@@ -640,7 +642,7 @@ def _run_case(p):
         O.disable_caching()
     try:
         if p.get('nvars', 1) == 1:
-            got, want, q = O.run_single(doms[0], cond)
+            got, want, q = O.run_single(doms[0], cond, variant=(p['seed'] // 3) % 4 if p.get('vary', True) else 0)
             ok = O.same_list_by_identity(got, want)
             if ok and p.get('reeval', True):
                 got2 = list(q.evaluate())
